@@ -9,8 +9,18 @@
   Reading of "Entry fields" written into the theorems: the middleware loops over `library.entries`, the
   *live* entries; an entry wrapped in a failed block (duplicate field keys, duplicate block key,
   middleware error) is not a live entry and is not touched.
+
+  Document level (last section before the examples): the same facts through the WHOLE default parse
+  stack `Pipeline.parseDefault` (splitter, `Library.add`, resolution, enclosing removal in place, the
+  `Library(blocks)` rebuilds), in terms of the splitter's blocks `bs` of the source text only:
+  `default_parse_fields`, `default_parse_metadata`, `default_parse_strings`, `default_parse_dup_entry`,
+  `default_parse_dup_string`, `default_parse_passive`; `resolvedSrc` / `isRef` / `resolvedKeys` and the
+  lemmas are in Lemmas/InterpolateDoc.lean (which builds on the C09 pipeline lemmas).  `firstString`
+  there is `Interpolate.firstString` (Lemmas/Interpolate.lean) - written qualified in this file because
+  AddAll.lean has a function of the same name (`first_string_spellings`: they are equal).
 -/
 import BibVerif.Lemmas.Interpolate
+import BibVerif.Lemmas.InterpolateDoc
 namespace Bib.C11
 open Bib Bib.Interpolate Bib.Enclosing
 
@@ -81,13 +91,13 @@ theorem resolves_iff (strings : List (Str × Live)) (f : Field) :
 for a key is the first `@string` block with exactly that key in `bs` (later ones become
 `DuplicateBlockKeyBlock`s), wherever it stands relative to the entries - before or after its use. -/
 theorem first_definition_wins (bs : List Block) (k : Str) :
-    lookup (addAll bs).strings k = firstString k bs := by
+    lookup (addAll bs).strings k = Interpolate.firstString k bs := by
   simpa [addAll, Lib.empty, lookup] using strings_foldl bs Lib.empty k
 
 /-- ... and that block really is a `@string` block of `bs` with this very key. -/
 theorem index_holds_string (bs : List Block) (k : Str) (b : Live) (h : lookup (addAll bs).strings k = some b) :
     ∃ v l r m, b = .string k v l r m ∧ Block.live b ∈ bs :=
-  firstString_key (by rw [← first_definition_wins]; exact h)
+  Interpolate.firstString_key (by rw [← first_definition_wins]; exact h)
 
 /-- Non-string values (ints, lists, ...) and enclosed values are never replaced; neither is a name that
 differs from every key (e.g. only in case). -/
@@ -168,6 +178,157 @@ theorem default_parse_value (P : PyChars) (strings : List (Str × Live)) (e : En
   simp only [Function.comp]
   cases hres : resolution strings f.value <;> simp [resolveField, hres]
 
+/-! ### document level: the whole default parse stack, in terms of the source blocks -/
+
+/-- the two definitions of "first @string block with key `k`" in this development agree -/
+theorem first_string_spellings (k : Str) (bs : List Block) :
+    Interpolate.firstString k bs = Bib.firstString k bs := firstString_eq k bs
+
+/-- `Interpolate.firstString k bs` is the FIRST @string block of the document with exactly the key
+`k`: it stands in `bs`, and no @string block before it has that key -/
+theorem first_string_is_first (k : Str) (bs : List Block) (p : Live)
+    (h : Interpolate.firstString k bs = some p) :
+    ∃ a c v l r m, bs = a ++ .live p :: c ∧ p = .string k v l r m ∧ Interpolate.firstString k a = none := by
+  rw [firstString_eq] at h
+  obtain ⟨a, c, hbs, ha, v, l, r, m, hp⟩ := firstString_pos h
+  exact ⟨a, c, v, l, r, m, hbs, hp, by rw [firstString_eq]; exact ha⟩
+
+/-- `resolvedSrc`: a bare value that is the key of an @string block of the document becomes the
+source value of the first such block - wherever it stands, before or after the use … -/
+theorem resolvedSrc_reference (bs : List Block) (src k v : Str) (l : Int) (r : Str) (m : MetaD)
+    (h1 : valueIsNonstringOrEnclosed (.str src) = false)
+    (h2 : Interpolate.firstString src bs = some (.string k (.str v) l r m)) :
+    resolvedSrc bs src = v ∧ isRef bs src = true := by
+  simp [resolvedSrc, isRef, h1, h2]
+
+/-- … a value enclosed in braces or quotes keeps its own content … -/
+theorem resolvedSrc_enclosed (bs : List Block) (src : Str)
+    (h : valueIsNonstringOrEnclosed (.str src) = true) : resolvedSrc bs src = src ∧ isRef bs src = false := by
+  simp [resolvedSrc, isRef, h]
+
+/-- … and so does every value that is not - as a whole, case-sensitively - the key of an @string
+block (undefined names, other case, numbers, concatenations) -/
+theorem resolvedSrc_undefined (bs : List Block) (src : Str)
+    (h : Interpolate.firstString src bs = none) : resolvedSrc bs src = src ∧ isRef bs src = false := by
+  have : isRef bs src = false := by simp [isRef, h]
+  exact ⟨resolvedSrc_of_not_ref bs src this, this⟩
+
+/-- **C11 at document level - field values.**  `parse_string(text)` with the default stack: every
+source entry that is the first with its key is the live entry at its position, with the same type,
+key, lines, raw text and field keys, and field `i` holds the one-layer-stripped *resolved* source
+value: for a bare identifier naming an @string of the document the content of the first such
+@string (its source value, one layer of braces/quotes removed), for `{key}`, `"key"`, undefined
+names, other-case names, numbers, concatenations its own (stripped) content. -/
+theorem default_parse_fields (P : PyChars) (s : Str) (L : List Block)
+    (h : Pipeline.parseDefault P s = .ok L) :
+    ∃ bs, split P s = .ok bs ∧
+      ∀ pre e post, bs = pre ++ .live (.entry e) :: post → firstEntry e.key pre = none →
+        ∃ e', L[pre.length]? = some (.live (.entry e')) ∧ e'.ty = e.ty ∧ e'.key = e.key ∧
+          e'.line = e.line ∧ e'.raw = e.raw ∧
+          e'.fields.map (·.key) = e.fields.map (·.key) ∧
+          e'.fields.map (·.line) = e.fields.map (·.line) ∧
+          ∀ (i : Nat) (f : Field), e.fields[i]? = some f → ∃ src, f.value = .str src ∧
+            (e'.fields[i]?).map (·.value) = some (.str (stripEnclosing P (resolvedSrc bs src)).1) := by
+  obtain ⟨bs, hs, hall⟩ := parseDefault_entry P s L h
+  refine ⟨bs, hs, ?_⟩
+  intro pre e post hbs hf
+  obtain ⟨he, _, e', d, hL, h1, h2, h3, h4, h5, _⟩ := hall pre e post hbs hf
+  refine ⟨e', hL, h1, h2, h3, h4, ?_, ?_, ?_⟩
+  · rw [h5, List.map_map]; rfl
+  · rw [h5, List.map_map]; rfl
+  · intro i f hi
+    obtain ⟨src, hsrc⟩ := he f (List.mem_of_getElem? hi)
+    refine ⟨src, hsrc, ?_⟩
+    rw [h5, List.getElem?_map, hi]
+    simp [hsrc, strOf]
+
+/-- the same as one equation on the field list (every source value is a `str`) -/
+theorem default_parse_fields_map (P : PyChars) (s : Str) (L : List Block)
+    (h : Pipeline.parseDefault P s = .ok L) :
+    ∃ bs, split P s = .ok bs ∧
+      ∀ pre e post, bs = pre ++ .live (.entry e) :: post → firstEntry e.key pre = none →
+        AllStr e.fields ∧
+        ∃ e', L[pre.length]? = some (.live (.entry e')) ∧
+          e'.fields = e.fields.map (fun f =>
+            { f with value := .str (stripEnclosing P (resolvedSrc bs (strOf f.value))).1 }) := by
+  obtain ⟨bs, hs, hall⟩ := parseDefault_entry P s L h
+  refine ⟨bs, hs, ?_⟩
+  intro pre e post hbs hf
+  obtain ⟨he, _, e', d, hL, _, _, _, _, h5, _⟩ := hall pre e post hbs hf
+  exact ⟨he, e', hL, h5⟩
+
+/-- **C11 at document level - metadata.**  The source entry has no parser metadata; after default
+parsing the live entry's metadata is: `ResolveStringReferences` ↦ the keys of exactly the fields
+whose source value is a reference (`isRef`), in field order - absent when there is none - followed
+by the `removed_enclosing` dict of `RemoveEnclosing` (C10). -/
+theorem default_parse_metadata (P : PyChars) (s : Str) (L : List Block)
+    (h : Pipeline.parseDefault P s = .ok L) :
+    ∃ bs, split P s = .ok bs ∧
+      ∀ pre e post, bs = pre ++ .live (.entry e) :: post → firstEntry e.key pre = none →
+        e.md = [] ∧
+        ∃ e' d, L[pre.length]? = some (.live (.entry e')) ∧
+          e'.md = (if resolvedKeys bs e = [] then []
+                   else [(METADATA_KEY, Meta.strs (resolvedKeys bs e))]) ++
+                  [(REMOVED_ENCLOSING_KEY, Meta.dict d)] := by
+  obtain ⟨bs, hs, hall⟩ := parseDefault_entry P s L h
+  refine ⟨bs, hs, ?_⟩
+  intro pre e post hbs hf
+  obtain ⟨_, hmd, e', d, hL, _, _, _, _, _, h6⟩ := hall pre e post hbs hf
+  exact ⟨hmd, e', d, hL, h6⟩
+
+/-- `resolvedKeys` spelled out: the keys of the fields whose value is not enclosed and names an
+@string block of the document -/
+theorem resolvedKeys_eq (bs : List Block) (e : Entry) :
+    resolvedKeys bs e = (e.fields.filter fun f =>
+      !valueIsNonstringOrEnclosed (.str (strOf f.value)) &&
+        (Interpolate.firstString (strOf f.value) bs).isSome).map (·.key) := rfl
+
+/-- **C11 at document level - the @string blocks.**  Every @string block that is the first with its
+key stays in the library at its position with its key, line and raw text.  *Resolution* leaves it
+exactly as it is (`strings_untouched`; stated here for the block list after the resolution stage);
+the default stack's enclosing removal then strips one layer of braces/quotes from its value, as
+from every value (C10), and records the removed enclosing. -/
+theorem default_parse_strings (P : PyChars) (s : Str) (L : List Block)
+    (h : Pipeline.parseDefault P s = .ok L) :
+    ∃ bs, split P s = .ok bs ∧
+      ∀ pre k v l r m post, bs = pre ++ .live (.string k v l r m) :: post → Bib.firstString k pre = none →
+        ∃ src, v = .str src ∧ m = [] ∧
+          (transform (addAll bs)).blocks[pre.length]? = some (.live (.string k v l r m)) ∧
+          L[pre.length]? = some (.live (.string k (.str (stripEnclosing P src).1) l r
+            [(REMOVED_ENCLOSING_KEY, Meta.str (stripEnclosing P src).2)])) :=
+  parseDefault_string P s L h
+
+/-- **Entries inside duplicate-key blocks are not resolved.**  A source entry whose key an earlier
+live entry `p` has (`p` stands at position `j`) is returned as a duplicate-key block holding the
+duplicate EXACTLY as the splitter produced it - not resolved, not even enclosing-stripped - and, as
+`previous_block`, the very (resolved, stripped) block `p'` that is live at position `j`. -/
+theorem default_parse_dup_entry (P : PyChars) (s : Str) (L : List Block)
+    (h : Pipeline.parseDefault P s = .ok L) :
+    ∃ bs, split P s = .ok bs ∧
+      ∀ pre e post p, bs = pre ++ .live (.entry e) :: post → firstEntry e.key pre = some p →
+        ∃ p' j, j < pre.length ∧ bs[j]? = some (.live p) ∧ L[j]? = some (.live p') ∧
+          L[pre.length]? = some (.dupKey e.key p' (.entry e)) :=
+  parseDefault_dupEntry P s L h
+
+/-- the same for a later @string with the key of an earlier one: it defines nothing
+(`first_definition_wins`) and is kept untouched inside the duplicate-key block -/
+theorem default_parse_dup_string (P : PyChars) (s : Str) (L : List Block)
+    (h : Pipeline.parseDefault P s = .ok L) :
+    ∃ bs, split P s = .ok bs ∧
+      ∀ pre k v l r m post p, bs = pre ++ .live (.string k v l r m) :: post → Bib.firstString k pre = some p →
+        ∃ p' j, j < pre.length ∧ bs[j]? = some (.live p) ∧ L[j]? = some (.live p') ∧
+          L[pre.length]? = some (.dupKey k p' (.string k v l r m)) :=
+  parseDefault_dupString P s L h
+
+/-- **Entries with duplicate field keys are not resolved**, and nothing else is touched: a
+duplicate-field block, a failed block, a preamble, a comment is returned exactly as the splitter
+produced it (the inner entry of a duplicate-field block keeps its raw source values). -/
+theorem default_parse_passive (P : PyChars) (s : Str) (L : List Block)
+    (h : Pipeline.parseDefault P s = .ok L) :
+    ∃ bs, split P s = .ok bs ∧
+      ∀ pre b post, bs = pre ++ b :: post → isPassive b = true → L[pre.length]? = some b :=
+  parseDefault_passive P s L h
+
 /-! ### non-vacuity (kernel evaluation on a concrete library) -/
 
 def exEntry : Entry :=
@@ -192,13 +353,61 @@ example : ((transform (addAll exBlocks)).blocks.map fun b => match b with
        ([], []), (["dup"], [])] := by
   decide +kernel
 
-example : (firstString "abc".toList exBlocks).map (fun b => match b with | .string _ v _ _ _ => strOf v | _ => [])
+example : (Interpolate.firstString "abc".toList exBlocks).map (fun b => match b with | .string _ v _ _ _ => strOf v | _ => [])
     = some "{first}".toList := by decide +kernel
 
 /-- the hypothesis of `default_parse_value` holds for the example, and the stripped values are as expected -/
 example : ((removeEntry asciiChars (resolveEntry (addAll exBlocks).strings exEntry)).toOption.map
       fun e => e.fields.map fun f => String.ofList (strOf f.value))
     = some ["first", "abc", "ABC", "abc # abc", "abc", "12"] := by
+  decide +kernel
+
+/-! ### non-vacuity at document level (kernel evaluation of the whole default stack) -/
+
+/-- use before definition, a duplicate definition, `{key}`, `"key"`, an undefined name, a
+concatenation, another case, a number; a duplicate-key entry and a duplicate-field entry -/
+def exDoc : Str :=
+  ("@a{k, a = abc, b = {abc}, c = \"abc\", d = nope, e = abc # abc, f = ABC, g = 12}\n" ++
+   "@string{abc = {first}}\n@string{abc = \"second\"}\n@a{k, a = abc}\n@a{j, a = abc, a = abc}").toList
+
+/-- what a block shows: class tag, field values, metadata keys with the resolved-keys list -/
+def exView (b : Block) : String × List String × List String :=
+  let vals (e : Entry) := e.fields.map fun f => String.ofList (strOf f.value)
+  let mds (m : MetaD) := m.map fun kv => String.ofList kv.1 ++ (match kv.2 with
+    | .strs l => "=" ++ String.intercalate "," (l.map String.ofList) | _ => "")
+  match b with
+  | .live (.entry e) => ("entry", vals e, mds e.md)
+  | .live (.string _ v _ _ m) => ("string", [String.ofList (strOf v)], mds m)
+  | .dupKey _ _ (.entry e) => ("dupkey", vals e, mds e.md)
+  | .dupKey _ _ (.string _ v _ _ m) => ("dupkey", [String.ofList (strOf v)], mds m)
+  | .dupField _ e => ("dupfield", vals e, mds e.md)
+  | _ => ("other", [], [])
+
+/-- the source blocks: the hypotheses of all six document-level theorems are met -/
+example : (split asciiChars exDoc).toOption.map (fun bs => bs.map exView)
+    = some [("entry", ["abc", "{abc}", "\"abc\"", "nope", "abc # abc", "ABC", "12"], []),
+            ("string", ["{first}"], []), ("string", ["\"second\""], []),
+            ("entry", ["abc"], []), ("dupfield", ["abc", "abc"], [])] := by
+  decide +kernel
+
+/-- `resolvedSrc` / `isRef` on the source blocks: only the bare `abc` is a reference, to the first
+definition -/
+example : (split asciiChars exDoc).toOption.map (fun bs =>
+      ["abc", "{abc}", "\"abc\"", "nope", "abc # abc", "ABC", "12"].map fun v =>
+        (String.ofList (resolvedSrc bs v.toList), isRef bs v.toList))
+    = some [("{first}", true), ("{abc}", false), ("\"abc\"", false), ("nope", false),
+            ("abc # abc", false), ("ABC", false), ("12", false)] := by
+  decide +kernel
+
+/-- the library after the default stack: `a` resolved (use before definition, first definition) and
+recorded; the @strings stripped; the duplicate-key entry and the duplicate-field entry untouched -/
+example : (Pipeline.parseDefault asciiChars exDoc).toOption.map (fun L => L.map exView)
+    = some [("entry", ["first", "abc", "abc", "nope", "abc # abc", "ABC", "12"],
+              ["ResolveStringReferences=a", "removed_enclosing"]),
+            ("string", ["first"], ["removed_enclosing"]),
+            ("dupkey", ["\"second\""], []),
+            ("dupkey", ["abc"], []),
+            ("dupfield", ["abc", "abc"], [])] := by
   decide +kernel
 
 end Bib.C11
